@@ -10,6 +10,7 @@ import (
 	"path/filepath"
 	"strconv"
 	"strings"
+	"sync"
 
 	"github.com/Dash-Industry-Forum/livesim2/pkg/chunkparser"
 	"github.com/Eyevinn/dash-mpd/mpd"
@@ -23,6 +24,7 @@ type Receiver struct {
 	ctx        context.Context
 	prefix     string
 	storage    string
+	mu         sync.Mutex        // protects streams
 	streams    map[string]stream // mapped by stream.id()
 	channelMgr *ChannelMgr
 }
@@ -54,11 +56,9 @@ func (r *Receiver) SegmentHandlerFunc(w http.ResponseWriter, req *http.Request) 
 		http.Error(w, "Failed to find valid stream", http.StatusBadRequest)
 		return
 	}
-	ch, ok := r.channelMgr.GetChannel(stream.chName)
-	if !ok {
-		r.channelMgr.AddChannel(r.ctx, stream.chName, stream.chDir)
+	ch, created := r.channelMgr.GetOrAddChannel(r.ctx, stream.chName, stream.chDir)
+	if created {
 		slog.Debug("Created new  channel", "name", stream.chName, "dir", stream.chDir)
-		ch, _ = r.channelMgr.GetChannel(stream.chName)
 	}
 	if ch.ignore {
 		slog.Debug("Dropping stream", "chName", stream.chName, "path", path)
@@ -83,9 +83,14 @@ func (r *Receiver) SegmentHandlerFunc(w http.ResponseWriter, req *http.Request) 
 		discardUpload(w, req, http.StatusOK)
 		return
 	}
-	if _, ok := r.streams[stream.id()]; !ok {
-		log.Info("New stream", "urlPath", path, "streamId", stream.id(), "mediaType", stream.mediaType)
+	r.mu.Lock()
+	_, knownStream := r.streams[stream.id()]
+	if !knownStream {
 		r.streams[stream.id()] = stream
+	}
+	r.mu.Unlock()
+	if !knownStream {
+		log.Info("New stream", "urlPath", path, "streamId", stream.id(), "mediaType", stream.mediaType)
 		err := os.MkdirAll(stream.trDir, 0755)
 		if err != nil {
 			log.Error("Failed to create directory", "err", err)
